@@ -131,6 +131,8 @@ RuleVal(r, args, inst, oname, ci, couts) ==
       [] r.k = "ci"    -> VInt(ci)
       [] r.k = "collect" -> VArr([i \in DOMAIN couts |-> couts[i][r.src]])
       [] r.k = "len" -> IF args[r.src].k = "arr" THEN VInt(Len(args[r.src].a)) ELSE VInt(0)
+      [] r.k = "arr2" -> IF args[r.src].k = "int"
+                         THEN VArr(<<VInt(args[r.src].i * 10), VInt(args[r.src].i * 10 + 1)>>) ELSE Null
 
 ChunkCount(st, args) ==
     IF ~st.split THEN 1
@@ -165,9 +167,14 @@ StageRun(p, st, args, path, cidx, deps, dims) ==
                                          IF x = "ci" THEN VInt(i - 1) ELSE args[x]]
                     ELSE args
         couts == [i \in 1..n |->
-                    IF st.split
+                    IF st.split /\ st.couts # <<>>
                     THEN [x \in {st.couts[j].n : j \in DOMAIN st.couts} |->
                             RuleVal(Lookup(st.couts, x).r, cargs(i), inst, x, i - 1, <<>>)]
+                    ELSE IF st.split
+                    \* no declared chunk outputs: the chunks fill in the stage-level
+                    \* outputs (here: every non-collecting output gets the chunk index)
+                    THEN [x \in {st.rules[j].n : j \in {k \in DOMAIN st.rules : st.rules[k].r.k # "collect"}} |->
+                            VInt(i - 1)]
                     ELSE [x \in {st.rules[j].n : j \in DOMAIN st.rules} |->
                             RuleVal(Lookup(st.rules, x).r, args, inst, x, 0, <<>>)]]
         outs == IF st.split
@@ -299,7 +306,7 @@ EvalCall(p, pl, env, c, path, ctx) ==
         IN
         \* which dimensions a result varies with is a static matter: a disabled
         \* call has the dimensions it would have had
-        IF isdis THEN mk(Null, [o \in onames |-> dv.pv], [o \in onames |-> r.dm[o] \cup dv.dm], <<>>, ot, TRUE, FALSE)
+        IF isdis THEN mk(Null, [o \in onames |-> dv.pv], [o \in onames |-> r.dm[o] \cup dv.dm], <<>>, ot, TRUE, r.wk)
         ELSE mk(VObj(r.outs), [o \in onames |-> r.pv[o] \cup dv.pv], [o \in onames |-> r.dm[o] \cup dv.dm],
               r.inv, ot, FALSE, r.wk)
     ELSE
@@ -359,7 +366,7 @@ EvalCall(p, pl, env, c, path, ctx) ==
             \* does the known defect "unforked-merge" concern this program?
             wk == (spv # {} /\ \E o \in onames : ~forked(o))
                   \/ (\E j \in DOMAIN keys : rs[j].wk) \/ (keys = <<>> /\ probe.wk)
-        IN IF isdis THEN mk(Null, [o \in onames |-> dv.pv], odm, <<>>, mt, TRUE, FALSE)
+        IN IF isdis THEN mk(Null, [o \in onames |-> dv.pv], odm, <<>>, mt, TRUE, wk)
            ELSE mk(val, opv, odm, Cat(1) \o ghosts, mt, FALSE, wk)
 
 ---------------------------------------------------------------------------
